@@ -12,6 +12,7 @@ import json
 import os
 import random
 import shutil
+import sys
 import tempfile
 import traceback
 from typing import Any, Dict, List, Optional, Tuple
@@ -348,9 +349,41 @@ class Cli:
             self.record["outcomes"].append([argv[0], "traceback", sig["type"], sig["site"]])
             return None, out.getvalue(), err.getvalue(), exc
         self.record["outcomes"].append([argv[0], code, len(out.getvalue()), len(err.getvalue())])
+        self.validate_stub(argv, code, out.getvalue(), op_index)
         if code not in (0, 1, 2, 65):
             self.v("unexpected_exit_code", f"isla {argv[0]} exited with {code}", op_index)
         return code, out.getvalue(), err.getvalue(), None
+
+    def validate_stub(self, argv: List[str], code: int, out: str, op_index: int):
+        """The process boundary is stubbed (in-process `main`).  For a deterministic
+        sample of the read-only commands of fault-free sessions the same command line is
+        also executed as a real `python -m isla` process in the same directory, and exit
+        status and stdout are compared.  Information for the evidence file only (the real
+        process has a real clock and real Z3 timeouts): never a verdict, not part of the
+        run digest."""
+        if self.plan.get("phase") != "dry" or argv[0] not in ("check", "find") or self.world.z3.natural_unknown:
+            return
+        self.stub_cmds = getattr(self, "stub_cmds", 0) + 1
+        if (self.plan["run_seed"] * 31 + self.stub_cmds * 7) % 9 != 0:
+            return
+        import subprocess
+
+        env = dict(os.environ, PYTHONWARNINGS="ignore")
+        alt = env.get("VERIF_REPO_SRC")
+        if alt:
+            env["PYTHONPATH"] = alt
+        else:
+            env.pop("PYTHONPATH", None)
+        try:
+            p = subprocess.run([sys.executable, "-W", "ignore", "-m", "isla"] + argv, capture_output=True, timeout=90, env=env, cwd=os.getcwd())
+        except Exception:
+            self.bump("stub_validation_subprocess_lost")
+            return
+        same = p.returncode == code and p.stdout.decode("utf-8", "replace") == out
+        self.bump("stub_validation_agree" if same else "stub_validation_disagree")
+        if not same:
+            self.record.setdefault("stub_disagreements", []).append(
+                {"argv": [a if len(a) < 80 else a[:77] + "..." for a in argv], "in_process": [code, out[:80]], "real_process": [p.returncode, p.stdout.decode("utf-8", "replace")[:80], p.stderr.decode("utf-8", "replace")[-160:]]})
 
     # --- oracle helpers
     def verdict(self, s: str) -> Tuple[bool, Optional[bool]]:
